@@ -225,8 +225,9 @@ class Toks(AV):
     alias: the list object itself (mutations are seen by everybody), not a copy"""
     tracked = True
 
-    def __init__(self, k, lo=0, hi=None, alias=True):
+    def __init__(self, k, lo=0, hi=None, alias=True, raw=True):
         self.k, self.lo, self.hi, self.alias = k, lo, hi, alias and lo == 0 and hi is None
+        self.raw = raw         # False: a list of the same length whose elements are values computed from the tokens
 
 
 class Sub(AV):
